@@ -20,6 +20,7 @@ package config
 //@ func errors.Is(err, target) (r)
 //@   trusted library contract (pure): a nil error matches nothing but nil
 //@   ensures nil_err: err == nil && target != nil ==> !r
+//@   ensures same_error_matches: err == target ==> r
 
 //@ func newConfigError
 //@   arith int
